@@ -93,8 +93,6 @@ type session struct {
 	running int  // thread that owns the hook right now (one goroutine runs at a time)
 	free    bool // cleanup mode: hooks and grants pass straight through
 	mu      sync.Mutex
-	opIdx   []int
-	pending []bool // thread is inside an operation (between its first grant and 'd')
 }
 
 var cur *session // the hook is package-level in std/channel: one session at a time per process
@@ -191,19 +189,17 @@ func (s *session) next(tm *time.Timer) (event, error) {
 
 // outcome of forcing one schedule
 type outcome struct {
-	status string // ok | div | mis | vio
-	sig    string
-	detail string
-	steps  int
+	status         string // ok | div | mis | vio
+	sig            string
+	detail         string
+	steps          int
 	blockedChecked int
 }
-
-func yieldPointFor(op byte, prev string) string { return prev }
 
 // runSchedule forces `sc` on a fresh real Channel and compares every step with the prediction.
 func runSchedule(capacity int, progs []string, sc sched, settle time.Duration) (out outcome) {
 	n := len(progs)
-	s := &session{ch: channel.NewChannel(), progs: progs, events: make(chan event, 16*n+16), opIdx: make([]int, n), pending: make([]bool, n)}
+	s := &session{ch: channel.NewChannel(), progs: progs, events: make(chan event, 16*n+16)}
 	s.ch.Construct(nil, data.NewIntValue(capacity))
 	s.grant = make([]chan struct{}, n)
 	for t := range s.grant {
